@@ -30,6 +30,10 @@ Binding (the real code is executed, TLC's values decide)
         equal P_p(z) * exp(-z) with TLC's rational P_p(z) and exp(-z) = Exponential.correlation(z);
         nu = 1/2 equals the Exponential model of length len/sqrt(nu);
   (viii) continuity in the shape parameters at integer / half-integer values (neighbours at -+2^-12);
+  (x)   the length unit (InitUnit): the cases of part B with len_scale, len_low, every lag, position and geo_scale
+        multiplied by 2^-40, 2^-30, 2^30 (exact in floating point): on all 17 classes, the generated user classes and
+        the polynomial classes every function value equals the unit-1 value (1e-12), the variant relations hold
+        inside each unit (nugget-aware variants differ from the plain ones exactly at lag 0), TLC's table values hold;
   (ix)  part H: the spellings of a construction, (var | var_raw) x (len_scale | integral_scale scalar | list)
         x rescale given / omitted x dim, on the 12 standard classes (var_factor = 1), the three TPL classes
         and a user class overriding var_factor: var, var_raw, var_factor, sill, covariance(0), cov_nugget(0),
@@ -58,7 +62,7 @@ TOL = 1e-12
 GRAPH_INVS = ["GraphTypeOK", "RejectIffEmpty", "UserKept", "Complete", "DelegationsDocumented",
               "GroundedInD", "EvalTerminates", "EvalGrounded"]
 VARIANT_INVS = ["NuggetOnlyAtZero", "AxisScales", "ChordBounds", "SpatialSound"]
-POLY_INVS = ["PolyTypeOK", "PolyIdentities", "CorAtZero", "Monotone", "Bounded", "Support",
+POLY_INVS = ["PolyTypeOK", "PolyIdentities", "PolyUnitFree", "CorAtZero", "Monotone", "Bounded", "Support",
              "SillBeyondRange", "Coincidences"]
 INT_INVS = ["IntSound"]
 
@@ -158,6 +162,7 @@ def mc_text(tier, rng):
         # part G: Matern with nu = p + 1/2 at rational z
         "HalfP": "{0, 1, 2, 3}",
         "HalfZ": "{<<0, 1>>, <<1, 8>>, <<1, 4>>, <<1, 2>>, <<1, 1>>, <<3, 2>>, <<2, 1>>, <<3, 1>>, <<5, 1>>, <<8, 1>>}",
+        "UnitExps": "{-40, -30, 30}",
         # part H: spellings of a construction
         "CFams": '{"unit", "tpl", "user"}',
         "CVars": "{<<2, 1>>, <<1, 2>>}",
@@ -428,6 +433,87 @@ def configured(cls, base_kwargs, g, L, cache):
 
 
 # ---------------------------------------------------------------------------
+# the length unit (part B, InitUnit): the same cases with len_scale, lags, positions, radius x 2^ue
+
+LENGTH_KW = ("len_scale", "len_low")      # constructor arguments that are lengths
+
+
+def in_unit(base, ue):
+    f = 2.0 ** ue
+    return {k: (v * f if k in LENGTH_KW else v) for k, v in base.items()}
+
+
+def unit_outputs(cls, base, groups, kmax):
+    """Every function value of the model in its own length unit: the plain functions on the lag grid
+    k/8 * len_scale (and the far tail), every variant case of the groups."""
+    L = base["len_scale"]
+    out = []
+    with warnings.catch_warnings():
+        warnings.simplefilter("ignore")
+        m = cls(**base)
+        r = np.concatenate([np.arange(0, kmax + 1) / 8.0, [2.0, 16.0, 256.0]]) * L
+        for fn in ("variogram", "covariance", "correlation"):
+            out.append((fn, {"args": [r.tolist()]}, np.asarray(getattr(m, fn)(r), dtype=float)))
+        out.append(("cor", {"args": [(m.rescale * r / L).tolist()]}, np.asarray(m.cor(m.rescale * r / L), dtype=float)))
+        cache = {}
+        for g in groups:
+            gm, _full = configured(cls, base, g, L, cache)
+            for meth, _fn, _cs, call, got in run_group(gm, g, L):
+                out.append((meth, dict(call, group=_pubg(g)), np.atleast_1d(np.asarray(got, dtype=float))))
+    return out
+
+
+def check_units(col, cls, who, base, dim, keyfmt, mspec_of, table=None):
+    """Cross-unit equality (every value equals the unit-1 value) and, inside every unit, the variant
+    relations (in particular: the nugget-aware variants differ from the plain ones exactly at lag 0)."""
+    G = _G
+    kmax = G["kmax"]
+    ref = None
+    for ue in [0] + sorted(G["ugroups"]):
+        groups = pick_groups(G["ugroups"][ue if ue else sorted(G["ugroups"])[0]], dim, None, None)
+        bu = in_unit(base, ue)
+        try:
+            out = unit_outputs(cls, bu, groups, kmax)
+        except RecursionError:
+            raise
+        except Exception as e:  # noqa: BLE001
+            col.violation(keyfmt % ("unit", "raises"), "%s in the length unit 2^%d (%s) raised %r" % (who, ue, bu, e),
+                          {"model": mspec_of(bu), "unit_exponent": ue})
+            continue
+        if ref is None:
+            ref = out
+            continue
+        col.cases += sum(o[2].size for o in out)
+        col.keys += len(groups)
+        nbad, plain_bad = 0, False
+        for (meth, call, got), (_m0, call0, got0) in zip(out, ref):
+            col.evals += got.size
+            bad = differs(got, got0)
+            if plain_bad and meth not in FNS:
+                break        # the variants of a unit dependent plain function follow it: one root cause
+            if bad.any():
+                nbad += 1
+                plain_bad = plain_bad or meth in FNS
+                i = int(np.flatnonzero(bad)[0])
+                col.violation(keyfmt % ("unit", meth),
+                              "%s: %s depends on the length unit: with len_scale, lags, positions and radius x 2^%d the value "
+                              "at the same relative lag (index %d of %s) is %r, in the original unit %r"
+                              % (who, meth, ue, i, {k: v for k, v in call.items() if k != "args"}, float(got[i]) if got.size > i else None,
+                                 float(got0[i]) if got0.size > i else None),
+                              {"model": mspec_of(bu), "reference_model": mspec_of(base), "unit_exponent": ue,
+                               "call": dict(call, method=meth), "reference_call": dict(call0, method=meth),
+                               "observed": got.tolist(), "expected": got0.tolist(), "index": i})
+        if nbad:
+            continue
+        # the relations inside the unit (and TLC's values where there is a table)
+        cache = {}
+        for g in groups:
+            gm, full = configured(cls, bu, g, bu["len_scale"], cache)
+            check_group(col, gm, mspec_of(full), g, bu["len_scale"], base["var"], base["nugget"],
+                        keyfmt % ("unit-%s", "%s"), table=table, relation=True)
+
+
+# ---------------------------------------------------------------------------
 # tasks executed in worker processes.  _G holds the parsed TLC output.
 
 _G = {}
@@ -564,6 +650,9 @@ def task_user(job):
                                 "variogram(r_k) checked against TLC": [tab[k]["variogram"] for k in sorted(tab)][:6]})
         if failed:
             continue  # the variants of a wrong function are wrong as well: one root cause, one report
+        if pi % (8 if G["tier"] == "thorough" else 24) == len(D) % 8:
+            check_units(col, cls, who, base, dim, "userclass:" + sig + ":%s:%s",
+                        lambda kw: {"user": {"D": list(D), "form": form}, "kwargs": kw}, table=tab)
         if G["tier"] == "quick" and (p["var"] + p["nug"] + p["res"] + p["le"]) % 2:
             continue  # quick: variants on the even-parity half of the lattice (all pairs of values occur)
         cache = {}
@@ -609,6 +698,9 @@ def task_poly(job):
                                 "correlation observed": np.asarray(m.correlation(np.array([tab[k]["r"] for k in ks]))).tolist()[6:10]})
         if failed:
             continue  # the variants of a wrong function are wrong as well: one root cause, one report
+        if pi % (8 if G["tier"] == "thorough" else 24) == (dim + opt) % 8:
+            check_units(col, cls, who, base, dim, "closedform:" + real + ":%s:%s",
+                        lambda kw: {"class": real, "kwargs": kw}, table=tab)
         if G["tier"] == "quick" and (p["var"] + p["nug"] + p["res"] + p["le"]) % 2:
             continue  # quick: variants on the even-parity half of the lattice (all pairs of values occur)
         cache = {}
@@ -714,6 +806,10 @@ def task_relation(job):
                     check_group(col, gm, {"class": name, "kwargs": full}, g, L, var, nug,
                                 "variant:" + name + ":%s:%s", relation=True)
                     col.keys += len(g["cases"])
+                # the same model in other length units (2^ue): every value unchanged
+                if oi == (dim - 1) % max(1, len(class_variants(name, dim, big))) or big:
+                    check_units(col, cls, "%s(%s)" % (name, full0), base, dim, "variant:" + name + ":%s:%s",
+                                lambda kw: {"class": name, "kwargs": kw})
                 # Yadrenko variants on a genuine lat-lon model (dimension forced to 3)
                 if dim == 3:
                     for g in [g for g in G["groups"] if g["kind"] == "yadrenko"]:
@@ -978,15 +1074,16 @@ TPL_BOUND_TOL = 1e-13   # inequalities between directly evaluated correlations
 def task_tpl(job):
     import gstools as gs
 
-    ci, lo, hi = job
+    ci, lo, hi, ue, stride = job     # ue: length unit 2^ue applied to len_low, len_scale and every lag
+    f = 2.0 ** ue
     cname, extra, mname, mextra = TPL_CLASSES[ci]
     cls, mode = getattr(gs, cname), getattr(gs, mname)
     col = Collect()
     kmax = _G["kmax"]
-    for si in range(lo, hi):
+    for si in range(lo, hi, stride):
         c = _G["tpl"][si]
-        a, L, s_, h2 = qf(c["a"]), qf(c["L"]), qf(c["s"]), qf(c["h2"])
-        lu, ll, wup, wlow = qf(c["lu"]), qf(c["ll"]), qf(c["wup"]), qf(c["wlow"])
+        a, L, s_, h2 = qf(c["a"]) * f, qf(c["L"]) * f, qf(c["s"]), qf(c["h2"])
+        lu, ll, wup, wlow = qf(c["lu"]) * f, qf(c["ll"]) * f, qf(c["wup"]), qf(c["wlow"])   # the weights are unit free
         if cname == "Integral":
             if a != 0.0:
                 continue
@@ -1463,6 +1560,8 @@ def run(pid, tier, seed, replay=None):
         "variance relations that do not involve kappa (var, covariance(0), sill when the variance is given as var) are exact (1e-12); "
         "far tail = 1e7 * max(1, len_scale) at 1e-9; TPL classes with hurst = 1/2, len_low = 0 (var_factor = len_scale/rescale exactly); "
         "JBessel is not constructed through integral_scale (the library refuses it)",
+        "length units: a unit is a power of two applied to len_scale, len_low, lags, positions and geo_scale, so all float images "
+        "stay exact and TLC's values on the lattice k/8*len_scale are unchanged (PolyUnitFree); spatial cases in other units for dim <= 2",
         "integral scale along histories: kappa(shape) is measured on a freshly constructed unit model of the same code, so the history "
         "relation decides staleness / coupling, not the value of kappa; quadrature classes (Spherical, SuperSpherical) at 1e-6",
         "the rotation convention used for *_spatial (planes xy, xz, yz; alternating signs; first angle first) is the "
@@ -1479,6 +1578,8 @@ def run(pid, tier, seed, replay=None):
              dict(workers=1, timeout=600, dump=("states", sc.path("graph.dump")))),
             ("variant", sc, "MC_Derive", cfg_part(cfg, "InitVariant", "Stutter", VARIANT_INVS),
              dict(workers=w, timeout=1800, dump=("states", sc.path("variant.dump")))),
+            ("unit", sc, "MC_Derive", cfg_part(cfg, "InitUnit", "Stutter", ["UnitSound"]),
+             dict(workers=w, timeout=1800, dump=("states", sc.path("unit.dump")))),
             ("poly", sc, "MC_Derive", cfg_part(cfg, "InitPoly", "Stutter", POLY_INVS),
              dict(workers=w, timeout=1800, dump=("states", sc.path("poly.dump")))),
             ("intscale", sc, "MC_Derive", cfg_part(cfg, "InitInt", "Stutter", INT_INVS),
@@ -1495,10 +1596,10 @@ def run(pid, tier, seed, replay=None):
              dict(workers=1, timeout=600, dump=("states", sc.path("ctor.dump")))),
         ]
         t0 = time.time()
-        results = tlc.run_many(jobs, parallel=9)
+        results = tlc.run_many(jobs, parallel=10)
         print("TLC: %d jobs in %.1fs" % (len(jobs), time.time() - t0))
         design_ok = True
-        for key in ("graph", "variant", "poly", "intscale", "inthist2", "inthist1", "tpl", "maternhalf", "ctor"):
+        for key in ("graph", "variant", "unit", "poly", "intscale", "inthist2", "inthist1", "tpl", "maternhalf", "ctor"):
             r = results[key]
             tlc.must_pass(r, "Derive." + key)
             rep.add_tlc("Derive.%s" % key, r)
@@ -1517,6 +1618,7 @@ def run(pid, tier, seed, replay=None):
         tstates = tlc.read_state_dump(sc.path("tpl.dump"))
         hstates = tlc.read_state_dump(sc.path("half.dump"))
         cstates = tlc.read_state_dump(sc.path("ctor.dump"))
+        ustates = tlc.read_state_dump(sc.path("unit.dump"))
         hist = {}
         for nopt in (1, 2):
             nodes, edges, inits = tlc.read_dot(sc.path("hist%d.dot" % nopt))
@@ -1552,6 +1654,12 @@ def run(pid, tier, seed, replay=None):
     ints = sorted((st["isc"] for st in istates), key=lambda s: tlaval.to_tla(s))
     rng.shuffle(ints)
     tpls = sorted((st["vc"] for st in tstates), key=lambda c: tlaval.to_tla(c))
+    ugroups = {}
+    for ue in sorted({st["vc"]["ue"] for st in ustates}):
+        ugroups[ue] = group_cases([{"vc": st["vc"]["c"]} for st in ustates if st["vc"]["ue"] == ue])
+    if len({tlaval.to_tla([_pubg(g) for g in gs_]) for gs_ in ugroups.values()}) != 1:
+        raise tlc.MachineryError("unit part: the case sets of the units differ")
+    _G["ugroups"] = ugroups
     ctors = {}
     for st in sorted((st["vc"] for st in cstates), key=lambda c: tlaval.to_tla(c)):
         ctors.setdefault(str(st["fam"]), []).append(st)
@@ -1585,7 +1693,9 @@ def run(pid, tier, seed, replay=None):
         for lo in range(0, len(share), 150):
             work.append(("hist", (name, share[lo:lo + 150], rng.randrange(2**31))))
     for ci in range(len(TPL_CLASSES)):
-        work.append(("tpl", (ci, 0, len(tpls))))
+        work.append(("tpl", (ci, 0, len(tpls), 0, 1)))
+        for ui, ue in enumerate(sorted(ugroups)):       # the same identity in other length units
+            work.append(("tpl", (ci, (ci + ui) % 3 if not big else 0, len(tpls), ue, 1 if big else 3)))
     for pp in sorted({c["p"] for c in _G["half"]}):
         work.append(("half", (pp,)))
     for name in SHAPE_SPECIAL:
